@@ -193,8 +193,7 @@ class _Normalise(ast.NodeTransformer):
         return n
 
     # ---- N7  accumulate-by-append loops
-    @staticmethod
-    def _append_loop(st, name):
+    def _append_loop(self, st, name):
         """`for T in IT: name.append(E)` with name not read in E / IT  ->  the comprehension, else None"""
         if not (isinstance(st, ast.For) and not st.orelse and len(st.body) == 1 and isinstance(st.body[0], ast.Expr)):
             return None
@@ -204,6 +203,22 @@ class _Normalise(ast.NodeTransformer):
             return None
         if _refs(c.args[0], name) or _refs(st.iter, name) or _refs(st.target, name):
             return None
+        # a for-loop leaves its target bound, a comprehension does not: the target must not be used outside the loop
+        scope = getattr(self, '_scope', None)
+        if scope is not None:
+            # (every occurrence lies inside this loop or inside another loop / comprehension that binds the name itself)
+            tnames = {x.id for x in ast.walk(st.target) if isinstance(x, ast.Name)}
+            covered = set()
+            for b in ast.walk(scope):
+                tg = [b.target] if isinstance(b, (ast.For, ast.AsyncFor)) else \
+                    [g.target for g in b.generators] if isinstance(b, (ast.ListComp, ast.SetComp, ast.DictComp, ast.GeneratorExp)) else []
+                bound = {x.id for t in tg for x in ast.walk(t) if isinstance(x, ast.Name)}
+                if bound & tnames:
+                    for x in ast.walk(b):
+                        if isinstance(x, ast.Name) and x.id in bound & tnames:
+                            covered.add(id(x))
+            if any(isinstance(x, ast.Name) and x.id in tnames and id(x) not in covered for x in ast.walk(scope)):
+                return None
         comp = ast.ListComp(elt=c.args[0], generators=[ast.comprehension(target=st.target, iter=st.iter, ifs=[], is_async=0)])
         node = ast.Assign(targets=[ast.Name(id=name, ctx=ast.Store())], value=comp)
         ast.copy_location(node, st)
@@ -264,7 +279,8 @@ class _Normalise(ast.NodeTransformer):
         def fills(body):
             last = body[-1]
             return isinstance(last, ast.Assign) and len(last.targets) == 1 and isinstance(last.targets[0], ast.Name) and \
-                last.targets[0].id in names and isinstance(last.value, (ast.ListComp, ast.List))
+                last.targets[0].id in names and (isinstance(last.value, (ast.ListComp, ast.List)) or self._is_ref(last.value)) and \
+                not _refs(last.value, last.targets[0].id)
         bodies = list(arms(chain))
         if not any(fills(b) for b in bodies):
             return stmts
@@ -379,7 +395,7 @@ class _Normalise(ast.NodeTransformer):
             st = stmts[i]
             nxt = stmts[i + 1] if i + 1 < len(stmts) else None
             if isinstance(st, ast.Assign) and len(st.targets) == 1 and isinstance(st.targets[0], ast.Name) \
-                    and (isinstance(st.value, ast.ListComp) or (isinstance(nxt, ast.Return) and isinstance(st.value, ast.Attribute) and self._is_ref(st.value))) \
+                    and (isinstance(st.value, ast.ListComp) or (isinstance(nxt, ast.Return) and self._is_ref(st.value))) \
                     and isinstance(nxt, (ast.Return, ast.Assign, ast.Expr)):
                 name = st.targets[0].id
                 uses = [n for n in ast.walk(nxt) if isinstance(n, ast.Name) and n.id == name]
@@ -394,6 +410,7 @@ class _Normalise(ast.NodeTransformer):
         return out
 
     def _blocks(self, node, scope):
+        self._scope = scope
         for fld in ('body', 'orelse', 'finalbody'):
             stmts = getattr(node, fld, None)
             if isinstance(stmts, list) and stmts and isinstance(stmts[0], ast.stmt):
@@ -405,6 +422,7 @@ class _Normalise(ast.NodeTransformer):
         for ch in ast.iter_child_nodes(node):
             if isinstance(ch, (ast.FunctionDef, ast.AsyncFunctionDef)):
                 self._blocks(ch, ch)
+                self._scope = scope
             elif isinstance(ch, (ast.stmt, ast.ExceptHandler)) or isinstance(ch, ast.ClassDef):
                 self._blocks(ch, scope)
 
